@@ -19,7 +19,7 @@ ASSUMPTIONS = [
     "SymNCO is run with its default beta = 1 (which of the two symmetric terms beta multiplies is then immaterial)",
     "PPO reference: clipped surrogate + vf_lambda * Huber(delta=1) - entropy_lambda * mean entropy, as documented in the class",
 ]
-REQUIRED_COUNTERS = ["c16_scaled_advantage_steps", "c16_fits", "c16_steps_checked", "c16_gradients_compared", "c16_rollout_weights_compared", "c16_dot_grad_checked", "c16_nonzero_gradients", "c16_rollout_steps", "c16_warmup_alpha0_steps", "c16_shared_groups_checked", "c16_ppo_minibatches", "c16_warmup_critic_steps", "c16_steps_after_warmup_end", "c16_rollout_values_checked"]
+REQUIRED_COUNTERS = ["c16_scaled_advantage_steps", "c16_fits", "c16_steps_checked", "c16_gradients_compared", "c16_rollout_weights_compared", "c16_dot_grad_checked", "c16_nonzero_gradients", "c16_rollout_steps", "c16_warmup_alpha0_steps", "c16_shared_groups_checked", "c16_ppo_minibatches", "c16_ppo_own_entropy", "c16_warmup_critic_steps", "c16_steps_after_warmup_end", "c16_rollout_values_checked"]
 MIN_NONTRIVIAL = {"quick": 250, "thorough": 3000}
 WORKERS = {"quick": 14, "thorough": 16}
 BUDGET_S = {"quick": 600, "thorough": 3000}
@@ -58,6 +58,8 @@ def cases(tier, seed):
                 out.append(dict(model="ppo", env=env, s=rnd.randrange(10**6), epochs=2, mb=rnd.choice([2, 3]), norm_adv=norm, bs=6, train=12))
             # documented mini-batch specifications: a fraction of the rollout batch, a size above the batch (clamped), with an lr schedule
             out.append(dict(model="ppo", env=env, s=rnd.randrange(10**6), epochs=2, mb=0.5, norm_adv=False, bs=6, train=12))
+            # non-default weights of the value and entropy terms and clip range (defaults: entropy_lambda = 0 switches the entropy term off)
+            out.append(dict(model="ppo", env=env, s=rnd.randrange(10**6), epochs=2, mb=3, norm_adv=rnd.random() < 0.5, bs=6, train=12, entropy_lambda=rnd.choice([0.5, 0.05]), vf_lambda=rnd.choice([0.5, 1.0, 2.0]), clip_range=rnd.choice([0.2, 0.05])))
             out.append(dict(model="ppo", env=env, s=rnd.randrange(10**6), epochs=2, mb=64, norm_adv=True, bs=5, train=10, sched=True))
     return out
 
